@@ -389,12 +389,53 @@ def r6_6(repo: Repo) -> RuleResult:
     return rr
 
 
-RULES = [r6_1, r6_2, r6_3, r6_4, r6_5, r6_6]
+EL = "vectorizers/edge_list_vectorizer.py"
+
+
+def r6_7(repo: Repo) -> RuleResult:
+    """An entry of the edge-list matrix is the *sum of the values* of the edges with that label pair.  The values are
+    converted with `.astype(float)` (float64); a constructor that narrows them (`dtype=np.float32`, or the dtype of a
+    matrix built that way) rounds every value above 2**24 and every sum that needs more than 24 bits."""
+    from ..model import walk_no_nested
+
+    rr = RuleResult("R6.7", "EdgeListVectorizer builds its matrices at the precision of the edge values (no narrowing dtype on the sparse constructors)", floor=2)
+    c = repo.module(EL).classes.get("EdgeListVectorizer")
+    if c is None:
+        raise AnalysisError("R6.7: EdgeListVectorizer not found")
+    narrow_attrs = set()
+    for entry in ("fit", "transform"):
+        f = repo.resolve_method(c, entry)
+        for call in repo.calls_in(f):
+            canon = repo.canonical(f.module, call.func) or ""
+            if not canon.startswith("scipy.sparse.") or not canon.endswith("_matrix"):
+                continue
+            d = None
+            for k in call.keywords:
+                if k.arg == "dtype":
+                    d = k.value
+            construct = "%s(...) in %s" % (canon.rsplit(".", 1)[1], entry)
+            if d is None:
+                rr.ok(f, construct, "no dtype argument: the float64 values are kept", call.lineno)
+                continue
+            t = norm(d)
+            dc = repo.canonical(f.module, d) or t
+            if dc in ("numpy.float64", "numpy.double", "float", "numpy.float_") or t in ("float", "'float64'", '"float64"'):
+                rr.ok(f, construct, "dtype %s" % t, call.lineno)
+            elif t.endswith(".dtype") and "self._train_matrix" in t:
+                # inherits whatever fit built: judged at fit's constructor
+                rr.ok(f, construct, "dtype of the training matrix (judged where fit builds it)", call.lineno, nontrivial=False)
+            else:
+                rr.bad(f, construct, "the matrix is built with dtype=%s: edge values above 2**24 and sums that need more than 24 bits are rounded, so "
+                       "an entry is no longer the sum of its edges' values" % t, call.lineno)
+    return rr
+
+
+RULES = [r6_1, r6_2, r6_3, r6_4, r6_5, r6_6, r6_7]
 
 CLAIM = (
     "R6.2 the skip-gram decode modulus equals the encode multiplier (symbolic, with the length fact len(window_sizes) = len(frequencies) + 1 derived from both registered window functions); R6.1 a small kinds checker infers, from the fit path, whether each fitted dictionary attribute maps labels to indices or "
     "indices to labels (dict(zip(A, range)), enumerate comprehensions, items() flips, .copy(), returns of the preprocessing "
-    "functions) and requires every other assignment to the same attribute - in particular in NgramVectorizer.__add__ - to have the same kind (and the kind its documented name declares); R6.3 ngrams_of enumerates sequence[i : i + n] for every i with the guard i + n <= len(sequence) (symbolic), subgram lengths 1..n; R6.4 `__add__` mutates neither operand (alias + effect analysis); R6.5 writer/reader agreement on the kind of key (bare label vs tuple) of the n-gram column dictionary and on the condition selecting it; R6.6 every entry of the merged skip-gram list of a document yields exactly one COO triple (whole list iterated, unconditional appends)."
+    "functions) and requires every other assignment to the same attribute - in particular in NgramVectorizer.__add__ - to have the same kind (and the kind its documented name declares); R6.3 ngrams_of enumerates sequence[i : i + n] for every i with the guard i + n <= len(sequence) (symbolic), subgram lengths 1..n; R6.4 `__add__` mutates neither operand (alias + effect analysis); R6.5 writer/reader agreement on the kind of key (bare label vs tuple) of the n-gram column dictionary and on the condition selecting it; R6.6 every entry of the merged skip-gram list of a document yields exactly one COO triple (whole list iterated, unconditional appends); R6.7 the sparse constructors of EdgeListVectorizer carry no narrowing dtype (the float64 edge values and their sums are kept exactly)."
 )
 NOT_DECIDED = (
     "the counts themselves and EdgeList duplicate summation."
